@@ -220,8 +220,11 @@ func TestC16Sequences(t *testing.T) {
 		r := run.Rand(uint64(i))
 		var seq []op
 		names5 := names5
-		if i%2 == 0 {
+		switch i % 4 {
+		case 0, 2:
 			names5 = []string{"A", "B", "C", "A", "B"} // few names: shared targets, clears and back edges collide
+		case 1:
+			names5 = []string{"A", "AA", "A.A", "a", "Ä"} // names that are prefixes / case variants of each other
 		}
 		for k := 1 + r.IntN(12); k > 0; k-- {
 			switch x := r.IntN(20); {
